@@ -1,6 +1,6 @@
 (* C11 - executable model of block import and restart in core/blockchain.go:
    InsertChain / insertChain (error dispatch) / insertSidechain /
-   verifyAllSideChainBlocks / WriteBlockWithState / reorg / insert /
+   verifyAllSideChainBlocks / WriteBlockWithState / reorg / stageHead / adoptHead /
    loadLastState / repair, BlockValidator.ValidateBody, and the rawdb accessors
    they use, over abstract blocks.  The database is a record of finite maps;
    every database write (a direct Put or one atomic batch) is one [write];
@@ -9,6 +9,8 @@
    Header verification is the labelled oracle of the harness' test engine
    (harness/cmd/c11/engine.go), which mirrors ucon.Server.verifyHeader's
    chain-dependent checks.
+   State of /repo modelled: after dee6410 (block = one batch), 2b21c7f (head switch
+   = one batch), 3eba51b (side-chain verification checks the signature).
    No proofs in this file. *)
 From Coq Require Export List NArith Bool.
 Export ListNotations.
@@ -124,36 +126,32 @@ Definition err_code (e : err) : N :=
   end.
 
 (* budget: None = the process is never killed; Some k = k more writes reach the
-   disk, the rest is lost.  [crashmid] remembers whether the last write that
-   reached the disk was an inner write of a head switch (see [set_head]). *)
+   disk, the rest is lost. *)
 Record st := mkS {
   disk_of : disk; cur : N; future : list N;
-  wlog : list write; budget : option nat; crashmid : bool }.
+  wlog : list write; budget : option nat }.
 
-Definition wr (mid : bool) (w : write) (s : st) : st :=
+Definition wr (w : write) (s : st) : st :=
   match w with
   | [] => s       (* an empty batch changes nothing *)
   | _ =>
     match budget s with
-    | None => mkS (apply_write w (disk_of s)) (cur s) (future s) (wlog s ++ [w]) None false
+    | None => mkS (apply_write w (disk_of s)) (cur s) (future s) (wlog s ++ [w]) None
     | Some O => s
-    | Some (S k) => mkS (apply_write w (disk_of s)) (cur s) (future s) (wlog s ++ [w]) (Some k) mid
+    | Some (S k) => mkS (apply_write w (disk_of s)) (cur s) (future s) (wlog s ++ [w]) (Some k)
     end
   end.
 
-Definition set_cur (h : N) (s : st) : st := mkS (disk_of s) h (future s) (wlog s) (budget s) (crashmid s).
-Definition set_future (f : list N) (s : st) : st := mkS (disk_of s) (cur s) f (wlog s) (budget s) (crashmid s).
-Definition die (s : st) : st := mkS (disk_of s) (cur s) (future s) (wlog s) (Some O) (crashmid s).
+Definition set_cur (h : N) (s : st) : st := mkS (disk_of s) h (future s) (wlog s) (budget s).
+Definition set_future (f : list N) (s : st) : st := mkS (disk_of s) (cur s) f (wlog s) (budget s).
+Definition die (s : st) : st := mkS (disk_of s) (cur s) (future s) (wlog s) (Some O).
 
-(* rawdb.WriteBlock: body, then hash->number, then header *)
-Definition write_block (b : block) (s : st) : st :=
-  wr false [WHdr (bid b)] (wr false [WHNum (bid b)] (wr false [WBody (bid b)] s)).
+(* rawdb.WriteBlock through one batch: body, hash->number, header *)
+Definition block_batch (b : block) : write := [WBody (bid b); WHNum (bid b); WHdr (bid b)].
+Definition write_block (b : block) (s : st) : st := wr (block_batch b) s.
 
-(* BlockChain.insert: SetCurrentHeader (head-header marker), canonical hash,
-   head-block marker: three separate writes.  [lastmid] says whether the state
-   after the last of them is still inside a head switch (true inside reorg). *)
-Definition set_head (lastmid : bool) (b : block) (s : st) : st :=
-  set_cur (bid b) (wr lastmid [WHeadB (bid b)] (wr true [WCanon (bnum b) (bid b)] (wr true [WHeadH (bid b)] s))).
+(* stageHead: head-header marker, canonical hash, head-block marker (into the batch) *)
+Definition stage_head (b : block) : write := [WHeadH (bid b); WCanon (bnum b) (bid b); WHeadB (bid b)].
 
 Section Import.
 Variable t : tree.
@@ -233,47 +231,44 @@ Definition reorg_chains (d : disk) (o n : block) : option (list block * list blo
     | Some (n', nc) => find_common (fuel_of o) d o n' [] nc
     end.
 
-(* inserts newChain lowest first; each block: insert, then its lookups, unbatched *)
-Fixpoint reorg_apply (nc_low_first : list block) (s : st) : st :=
-  match nc_low_first with
-  | [] => s
-  | x :: r =>
-    let s := set_head true x s in
-    let s := fold_left (fun s tx => wr true [WLook tx (bid x)] s) (btxs x) s in
-    reorg_apply r s
-  end.
-
 Definition all_txs (l : list block) : list N := flat_map btxs l.
 
-Definition reorg (s : st) (o n : block) : option st :=
-  match reorg_chains (disk_of s) o n with
+(* what reorg stages into the caller's batch: for the new chain, lowest block
+   first, the head markers and lookups of each block; then the deletion of the
+   lookups of transactions that are only in the old chain *)
+Definition stage_block (x : block) : write := stage_head x ++ map (fun tx => WLook tx (bid x)) (btxs x).
+
+Definition reorg (d : disk) (o n : block) : option write :=
+  match reorg_chains d o n with
   | None => None
   | Some (oc, nc) =>
-    let s := reorg_apply (rev nc) s in
     let added := all_txs nc in
     let diff := filter (fun x => negb (memN x added)) (all_txs oc) in
-    Some (wr true (map WUnlook diff) s)
+    Some (flat_map stage_block (rev nc) ++ map WUnlook diff)
   end.
 
 (* ---- WriteBlockWithState -------------------------------------------------- *)
-(* p: the parent the block was processed on.  state.Commit + TrieDB().Commit
-   flush the trie nodes the block's execution created, whether or not they are
-   on disk already; a block that leaves the state unchanged creates none. *)
+(* p: the parent the block was processed on.  Three database writes: the block
+   (one batch), the state (trie.Database.Commit flushes the nodes the block's
+   execution created, whether or not they are on disk already; a block that
+   leaves the state unchanged creates none), and the head switch (one batch:
+   receipts, reorg's entries, the block's lookups, the head markers).  The
+   in-memory head moves after the batch is written. *)
 Definition write_block_with_state (p b : block) (s : st) : st * err :=
   let s := write_block b s in
-  let s := if broot b =? broot p then s else wr false [WState (broot b)] s in
+  let s := if broot b =? broot p then s else wr [WState (broot b)] s in
   let rc := match btxs b with [] => [] | _ => [WRcpt (bid b)] end in
   let r :=
-    if bpar b =? cur s then Some s
+    if bpar b =? cur s then Some []
     else match info t (cur s) with
          | None => None
-         | Some c => reorg s c b
+         | Some c => reorg (disk_of s) c b
          end in
   match r with
   | None => (s, EReorg)
-  | Some s =>
-    let s := wr true (rc ++ map (fun tx => WLook tx (bid b)) (btxs b)) s in
-    let s := set_head false b s in
+  | Some rg =>
+    let s := wr (rc ++ rg ++ map (fun tx => WLook tx (bid b)) (btxs b) ++ stage_head b) s in
+    let s := set_cur (bid b) s in
     (set_future (filter (fun x => negb (x =? bid b)) (future s)) s, ENone)
   end.
 
@@ -287,7 +282,7 @@ Fixpoint vasc_loop (d : disk) (first : N) (prev : block) (chain : list block) : 
     let lb := lookback (bnum b) in
     if (lb <? first) && (match get_header_by_number t d lb with None => true | Some _ => false end) then EPanic
     else if negb ((bnum prev + 1 =? bnum b) && (bid prev =? bpar b)) then EUnknownAnc
-    else if bhv b =? 2 then EBadHeader
+    else if (bhv b =? 1) || (bhv b =? 2) then EBadHeader       (* verifySignature, consensus field *)
     else if negb (bbv b =? 0) then EBadState
     else vasc_loop d first b r
   end.
@@ -523,11 +518,11 @@ Definition import_fuel : nat := 6.
 (* a freshly initialised database: genesis g written by Genesis.Commit *)
 Definition init_disk (g : block) : disk :=
   mkD [bid g] [bid g] [bid g] [broot g] [bid g] [] [(0, bid g)] (bid g) (bid g).
-Definition init_st (g : block) : st := mkS (init_disk g) (bid g) [] [] None false.
+Definition init_st (g : block) : st := mkS (init_disk g) (bid g) [] [] None.
 
-Definition clear_log (s : st) : st := mkS (disk_of s) (cur s) (future s) [] (budget s) (crashmid s).
-Definition with_budget (k : option nat) (s : st) : st := mkS (disk_of s) (cur s) (future s) [] k false.
-Definition fresh (d : disk) (head : N) : st := mkS d head [] [] None false.
+Definition clear_log (s : st) : st := mkS (disk_of s) (cur s) (future s) [] (budget s).
+Definition with_budget (k : option nat) (s : st) : st := mkS (disk_of s) (cur s) (future s) [] k.
+Definition fresh (d : disk) (head : N) : st := mkS d head [] [] None.
 
 (* a history: batches of block ids offered to InsertChain one after the other *)
 Definition run (t : tree) (fuel : nat) (s : st) (hist : list (list N)) : st :=
@@ -593,7 +588,7 @@ Record step := mkStep {
 
 Definition crash_ok (t : tree) (s0 : st) (batch : list block) (further : list block) (k : nat) (c : crashobs) : bool :=
   let (sk, _) := InsertChain t import_fuel (with_budget (Some k) s0) batch in
-  Bool.eqb (crashmid sk) (cr_mid c) &&
+  negb (cr_mid c) &&      (* no crash point is inside a head switch any more *)
   match recover t (disk_of sk) with
   | None => negb (cr_ok c)
   | Some (d, h) =>
